@@ -5,13 +5,38 @@ ids = [json.loads(l)["id"] for l in open("/verif/properties.jsonl")]
 TECH = "symbolic execution of the real code's go/ssa (own executor /verif/symx) + SMT (QF_BV, cvc5 1.0.3 incremental); counterexamples replayed natively"
 NOTE_COMMON = ("Trusted: go/ssa + go/types (x/tools v0.50.0, go1.26.8) translate the source faithfully; cvc5 answers are correct (thorough tier cross-checks the query transcript with z3); "
                "the executor's models of the stubbed library calls listed in evidence.stubs_hit. Every run validates sampled paths by executing the solver's model natively and comparing observations. ")
+FAM = ("Grammars are an enumerated family regenerated on every run with the peg built from /repo's working tree (bounded-exhaustive expressions of size <= 3 (quick) / <= 4 sampled (thorough), "
+       "every terminal kind in 18 contexts, ~40 curated shapes, multi-rule outlines); the solver quantifies over ALL inputs of length 0..N (N=4 quick, 5 thorough), each rune any Unicode scalar value, and over the predicate switches. ")
+ORACLE = "Oracle: an independent ~300-line transcription of PEG semantics (vhlib/ref) executed symbolically on the same input. "
+def g(text, extra=""):
+    return dict(text=text, note=NOTE_COMMON + FAM + extra, design="DESIGN.md 4")
 checks = {
+ "C01": g("Bounded symbolic model checking of each generated parser (default options): for every family grammar, every entry rule and every input up to N runes the verdict and the consumed prefix equal the reference PEG semantics. " + ORACLE +
+          "Right level: restore/lookahead/range-bound mistakes only show on particular inputs, which are solver variables here; the grammar dimension cannot be symbolic because the generator emits text."),
+ "C02": g("Differential bounded model checking: the parsers generated with -inline, -switch and -inline -switch are executed symbolically next to the default parser on the same symbolic input; verdict and full token list must agree on every path; a variant that does not generate or compile is a violation."),
+ "C03": g("The real parser's Tokens() after every accepting path are compared element-wise (rule, begin, end in runes) with the post-order derivation of the reference semantics. " + ORACLE),
+ "C04": g("Execute() of the real parser with probe actions is run symbolically; the recorded trace (action number, begin, end, text as a symbolic string) must equal the derivation's action list with the most recent preceding capture; a second Execute must repeat it."),
+ "C05": g("AST() is walked (up/next) and compared with the tree defined directly from the token spans; SprintSyntaxTree output (fmt/strconv.Quote modelled, Quote uninterpreted) must equal the expected lines; AST/print must not disturb the tokens."),
+ "C06": g("The same generated parser is run with and without DisableMemoize on the same symbolic input: verdict, tokens, printed tree and (on failure) the error token must agree, and agree with the reference; evidence counts paths on which the reference re-entered a (rule, offset) pair (memo hits)."),
+ "C07": g("The four -noast variants are run next to the default parser: verdicts must agree on every path; for -noast and -noast -inline the inline action trace (action number, text) must equal the reference's evaluation-order trace; under -switch each event's text must be a span of the input."),
+ "C11": g("Failing paths: err != nil iff the reference rejects; the error token equals the reference's first non-empty token reaching the furthest end and lies in the input; Error() is executed symbolically (fmt/Quote modelled) and must name the rule, the 1-based line/column of begin and end (newline placement is a solver variable) and quote exactly input[begin:end]; also after Reset with a second input."),
+ "C12": g("One long-lived parser is fed 2 (thorough: 3) independent symbolic inputs via Buffer/Reset and compared step by step (verdict, tokens, action trace, printed tree, error token and message) with a fresh parser; Size in {unset,1,64}; the four instantiations uint16/uint32/uint64/uint x Size {unset,0,1,64} must agree.",
+          "Histories of <= 3 inputs of <= 3 runes; a defect that needs a 65535-rune input (position wrap in uint16) is outside the bound. "),
+ "C13": g("All eight option sets of every family grammar are run on every input up to N runes (incl. U+0000, U+FFFD, non-BMP, U+10FFFF as solver-chosen values): any Go panic (nil dereference, index/slice out of range) on any path is a violation; token and error-token spans must lie in [0, len(runes)]; Error(), the printers and Execute are exercised.",
+          "Very long inputs are outside the bound (N <= 5). "),
+ "C14": g("Two instances (same parser type, two different parser packages, and two instances initialised with the SAME option values) make their API calls (init, parse, execute/print/error) in every merge order of the enumerated set; each instance's observables must equal its run-alone observables and the actors' heap footprints must be write-disjoint.",
+          "Non-interference argument (disjoint write footprints => any real schedule is equivalent to a sequential one), not scheduler exploration; sync.Pool is modelled as handing out the most recently Put item. "),
  "C16": dict(
    text="Bounded model checking of the real set/set.go: every exported operation after every history of <= k AddRange/Add calls with ARBITRARY arguments over all code points "
         "(membership, union, intersects, complement, extensional equality, operands unmodified, no aliasing) and over a small universe for Len/String; the solver quantifies over all endpoints, limits and probe elements. "
         "Right level because the interval list's case analysis only goes wrong for particular orderings/boundaries, which are solver variables here.",
    note=NOTE_COMMON + "Bounds: histories of <= 2 (quick) / <= 4 (thorough) insertions per set; Len over elements 0..7, String over 0..5; precondition 0 <= begin <= end <= 0x10FFFF.",
    design="DESIGN.md 4/C16"),
+ "C18": dict(
+   text="main.main/getIO/parse are executed symbolically under a nondeterministic environment: flags are symbolic booleans, every open/read/parse/compile/flush/close outcome is a fresh symbolic boolean, "
+        "so every combination of faults is explored; exit status 0 must imply no fault, the requested source and destination, a truncating open and the options reaching the generator. Sampled paths and every counterexample are re-run with the REAL binary in a matching real environment.",
+   note=NOTE_COMMON + "The front end and Compile are stubs here (A-COMPILE: Compile returns nil only after the formatted parser was written to out); a failing Close cannot be injected natively; flag parsing is stubbed.",
+   design="DESIGN.md 4/C18"),
 }
 NA = {
 }
